@@ -248,7 +248,7 @@ fn msys_dispatch(a: &Args, sys: &str, replay: Option<(Vec<String>, String)>) -> 
     use i_tree::map::tree::MapTree;
     use i_tree::set::list::SetList;
     use i_tree::set::tree::SetTree;
-    use msys::{HeapVal, IKey, MFlags, MSys, SVal, TrackVal};
+    use msys::{FaultVal, HeapVal, IKey, MFlags, MSys, SVal, TrackVal};
     let f = MFlags {
         wr: a.flag("wr"),
         delh: a.flag("delh"),
@@ -293,6 +293,10 @@ fn msys_dispatch(a: &Args, sys: &str, replay: Option<(Vec<String>, String)>) -> 
         ("settree", "u16") => go!(SetTree<IKey, SVal<u16>>),
         ("settree", "heap") => go!(SetTree<IKey, SVal<HeapVal>>),
         ("settree", "bare") => go!(SetTree<u8, u8>),
+        ("maptree", "fault") => go!(MapTree<IKey, FaultVal>),
+        ("settree", "fault") => go!(SetTree<IKey, SVal<FaultVal>>),
+        ("maplist", "fault") => go!(MapList<IKey, FaultVal>),
+        ("setlist", "fault") => go!(SetList<SVal<FaultVal>>),
         ("setlist", "u16") => go!(SetList<SVal<u16>>),
         ("setlist", "heap") => go!(SetList<SVal<HeapVal>>),
         _ => die("unsupported --sys/--pay combination"),
